@@ -4,6 +4,10 @@
 // every arroy function that a property depends on is extracted from /repo at run time.
 // ---------------------------------------------------------------------------------------------
 pub type ItemId = u32;
+pub assume_specification<T>[core::mem::drop::<T>](x: T);
+pub assume_specification<T, U, F: FnOnce(T) -> U>[Option::<T>::map_or](o: Option<T>, default: U, f: F) -> (r: U)
+    requires o matches Some(x) ==> f.requires((x,)),
+    ensures match o { Some(x) => f.ensures((x,), r), None => r == default };
 
 #[derive(Copy, Clone, PartialEq, Eq, Structural)]
 pub enum NodeMode { Metadata, Updated, Tree, Item }
@@ -310,7 +314,7 @@ impl ItemIds {
     #[verifier::external_body]
     pub fn from_slice(slice: &[u32]) -> (r: ItemIds) ensures r@ == slice@ { unimplemented!() }
     #[verifier::external_body]
-    pub fn len(&self) -> (r: usize) ensures r == self@.len() { unimplemented!() }
+    pub fn len(&self) -> (r: usize) ensures r == self@.len(), r <= usize::MAX / 4 { unimplemented!() }
     /// rule R7: `roots.iter().collect()`
     #[verifier::external_body]
     pub fn to_vec_(&self) -> (r: Vec<u32>) ensures r@ == self@ { unimplemented!() }
